@@ -64,7 +64,18 @@ def run(ctx) -> list[Inst]:
         # is constructed anywhere at all, which is a vanished anchor.
         elsewhere = [g for g in prog.all_funcs() if find_ctor(g, 'malParser') is not None]
         if not elsewhere:
-            raise AnalysisError('malParser is not constructed anywhere in the package (anchor vanished)')
+            # the recogniser classes handed to a factory as VALUES (`_strict(malParser, tokens, ..)`)?
+            by_value = [g for g in prog.all_funcs() if not g.module.generated and any(
+                isinstance(x, ast.Name) and x.id == 'malParser' and isinstance(x.ctx, ast.Load) for x in ast.walk(g.node))]
+            if not by_value:
+                raise AnalysisError('malParser is not constructed anywhere in the package (anchor vanished)')
+            g = by_value[0]
+            insts.append(Inst(RULE, compile_f.short, '(a) syntax errors make compile() fail', 'unproven',
+                              msg=(f'{g.short} hands the parser class to a factory as a value: the listener / strategy idioms '
+                                   f'are decided for a parser constructed by name only'),
+                              file=g.module.relpath, line=g.node.lineno, props=props))
+            insts += _lookups(ctx)
+            return insts
         g = elsewhere[0]
         insts.append(Inst(RULE, compile_f.short, '(a) syntax errors make compile() fail', 'unproven',
                           msg=(f'the parser is constructed in {g.short}, outside MalCompiler: the listener / strategy '
